@@ -274,16 +274,7 @@ func init() {
 		return &Val{T: resT, S: x.termOf(s, args[0])}, true
 	}
 	reg([]string{"(github.com/ethereum/go-ethereum/common.Address).Bytes", "(github.com/ethereum/go-ethereum/common.Hash).Bytes"}, idb)
-	fix := func(n int, fn string) func(x *Exec, s *State, args []*Val, resT types.Type) (*Val, bool) {
-		return func(x *Exec, s *State, args []*Val, resT types.Type) (*Val, bool) {
-			// left-padded / left-cropped to n bytes: identity on n-byte inputs
-			x.c.P.declare(fn, fmt.Sprintf("(declare-fun %s (Bytes) Bytes)", fn))
-			x.c.P.axiom(fn+"_ax", []string{fn}, fmt.Sprintf("(assert (forall ((b Bytes)) (! (and (= (blen (%s b)) %d) (=> (= (blen b) %d) (= (%s b) b))) :pattern ((%s b)))))", fn, n, n, fn, fn))
-			return &Val{T: resT, S: sx(fn, x.termOf(s, args[0]))}, true
-		}
-	}
-	summaryRegistry["github.com/ethereum/go-ethereum/common.BytesToAddress"] = fix(20, "bytes2addr")
-	summaryRegistry["github.com/ethereum/go-ethereum/common.BytesToHash"] = fix(32, "bytes2hash")
+	// (BytesToHash / BytesToAddress are summarised in summ_goat.go)
 	// ---- time.Time / Duration as nanoseconds ----
 	tt := "(time.Time)."
 	reg([]string{tt + "Sub"}, bin(func(a, b string) string { return sub(a, b) }))
